@@ -135,6 +135,16 @@ CLAIMED = {
    note="LocalFS only (the tar/mtree writers do not touch the filesystem). Symlinks created by the archive may point outside (that is allowed); following them is not.",
    technique="TLA+ spec checked by TLC over all small archives; trace validation of real unpack runs in a sandbox",
    design="4/C18"),
+ "C19": dict(
+   text="FormatDecoder.tla classifies element classes (type x size field x bytes available x content flags), protocol messages and element-kind sequences as "
+        "valid / malformed / loose from the format description and models the decoders as coded with the bytes they allocate; TLC proves no panic, allocation "
+        "<= 8 x available + 256 KiB, malformed => error, valid => element over all classes and all kind sequences of length <= 5, and shows the violations "
+        "of the code as found (F10, F21: repaired). The same classes as bytes, every truncation of valid files and random/mutated strings are fed to the real "
+        "FormatDecoder, ArchiveDecoder, IndexFromReader, Protocol (ReadMessage, RecvHello, RequestChunk, Serve), the index PUT handler and IndexFromFile in a "
+        "memory-limited child; every record is judged by the spec.",
+   note="Allocation is measured with runtime.MemStats.TotalAlloc; chunk decompression (zstd) is outside the property's anchors.",
+   technique="TLA+ classification + decoder model checked by TLC over all classes; spec-generated inputs replayed on the real decoders and validated by TLC",
+   design="4/C19"),
  "C13": dict(
    text="Catar.tla is the archive format as an attributed grammar: a pushdown recogniser over element tokens checking contiguous offsets, size fields, element "
         "order, sorted children and xattrs, and every goodbye table (items = children's back-offsets/sizes/name hashes laid out as a complete BST in array form, "
